@@ -39,8 +39,7 @@ template <class T,int index>
 static FixedArray<T>
 Vec4Array_get(FixedArray<IMATH_NAMESPACE::Vec4<T> > &va)
 {
-    return FixedArray<T>(&(va.unchecked_index(0)[index]),
-                         va.len(), 4*va.stride(), va.handle(), va.writable());
+    return memberView (va, &(va.unchecked_direct_index(0)[index]), 4);
 }
 
 template <class T>
